@@ -246,49 +246,69 @@ theorem service_write_delete_denied (c : Config) (id : Nat) (has : PyStr → Boo
   · simp [run, decodeName, runNamed, serviceObj, hd, runHook, denyHook]
   · intro nm; unfold run; cases decodeName nm <;> simp [runNamed, serviceObj, plainObj, runDefault]
 
-/-! ### (4) isolation: an invariant over ALL histories -/
+/-! ### (4) isolation: an invariant over ALL histories
 
-/-- **The defaults are never changed**, whatever connections are opened, put in classic mode, used and closed, in
-whatever order. -/
-theorem default_never_changes (w : World) (evs : List Event) : (runEvents w evs).dflt = w.dflt :=
-  runEvents_dflt w evs
+Histories contain, besides opening / classic-mode `on_connect` / requests / closing of any number of connections:
+the application EDITING a settings-dict object it has passed (or will pass) to `Connection(...)` and reusing it, and the
+application editing the module-level `DEFAULT_CONFIG`. -/
 
-/-- **Isolation (noninterference).** After ANY history, connection `j`'s state — hence every decision it makes — is
-what it would be had only `j`'s own events happened: erasing every other connection's opening (with whatever
-configuration), classic-mode `on_connect`, requests and closing changes nothing for `j`. -/
+/-- **The defaults are never changed by rpyc**: whatever connections are opened (with whatever dicts), put in classic
+mode, used and closed, in whatever order — only the application's own `DEFAULT_CONFIG.update` changes them. -/
+theorem default_never_changes (w : World) (evs : List Event) (h : ∀ e ∈ evs, ∀ ov, e ≠ .setDefault ov) :
+    (runEvents w evs).dflt = w.dflt :=
+  runEvents_dflt w evs h
+
+/-- **A connection's configuration is the copy taken when it was opened.** A history in which connection `j` itself
+does not take part — other connections' openings, classic-mode connects, requests, closings, the application editing
+ANY settings dict (including the very object `j` was opened with) or `DEFAULT_CONFIG` — leaves `j` exactly as it was. -/
+theorem others_cannot_change (w : World) (evs : List Event) (j : Nat) (h : ∀ e ∈ evs, e.conn ≠ some j) :
+    (runEvents w evs).conns j = w.conns j := by
+  induction evs generalizing w with
+  | nil => rfl
+  | cons e es ih =>
+    simp only [runEvents]
+    rw [ih _ (fun x hx => h x (List.mem_cons_of_mem _ hx)), step_other w e j (h e (List.mem_cons_self ..))]
+
+/-- … hence every decision it makes is unchanged: for every object, name and request kind -/
+theorem others_cannot_change_decisions (w : World) (evs : List Event) (j : Nat) (h : ∀ e ∈ evs, e.conn ≠ some j)
+    (o : Obj) (nm : Name) (r : Req) : (runEvents w evs).decide j o nm r = w.decide j o nm r := by
+  simp only [World.decide, others_cannot_change w evs j h]
+
+/-- **Isolation (noninterference).** After ANY history, connection `j`'s state is what it would be had only `j`'s own
+events and the application's edits (which decide what a connection opened LATER starts from) happened: erasing every
+other connection's opening, classic-mode `on_connect`, requests and closing changes nothing for `j`. -/
 theorem isolation (w : World) (evs : List Event) (j : Nat) :
-    (runEvents w evs).conns j = (runEvents w (evs.filter (fun e => e.conn == j))).conns j :=
-  runEvents_filter j evs w w rfl rfl
+    (runEvents w evs).conns j = (runEvents w (evs.filter (fun e => e.conn == some j || e.isEnv))).conns j :=
+  runEvents_filter j evs w w rfl rfl rfl
 
-/-- the same, said about decisions: for every object, name and request kind -/
+/-- the same, said about decisions -/
 theorem isolation_decisions (w : World) (evs : List Event) (j : Nat) (o : Obj) (nm : Name) (r : Req) :
-    (runEvents w evs).decide j o nm r = (runEvents w (evs.filter (fun e => e.conn == j))).decide j o nm r := by
+    (runEvents w evs).decide j o nm r
+      = (runEvents w (evs.filter (fun e => e.conn == some j || e.isEnv))).decide j o nm r := by
   simp only [World.decide, isolation w evs j]
 
-/-- a history in which connection `j` does not take part leaves `j` exactly as it was -/
-theorem others_cannot_change (w : World) (evs : List Event) (j : Nat) (h : ∀ e ∈ evs, e.conn ≠ j) :
-    (runEvents w evs).conns j = w.conns j := by
-  have hf : evs.filter (fun e => e.conn == j) = [] := by
-    simp only [List.filter_eq_nil_iff, beq_iff_eq]
-    exact h
-  rw [isolation, hf]; rfl
-
-/-- **Closed form.** In any history from the initial state, a live (or closed) connection's configuration is the
-generated defaults overlaid with the dict one of ITS OWN `open` events carried, with or without the classic-mode
-update on top — no other ingredient exists. -/
-theorem config_comes_from_own_open (evs : List Event) (j : Nat) (cfg : Config)
-    (h : (runEvents World.init evs).conns j = .live cfg ∨ (runEvents World.init evs).conns j = .closed cfg) :
-    ∃ ov, Event.open j ov ∈ evs
-      ∧ (cfg = applyOverlay defaultConfig ov ∨ cfg = onConnectSlave (applyOverlay defaultConfig ov)) := by
-  have inv := runEvents_slotOk evs World.init [] (fun _ => trivial) j
-  rcases h with h | h <;> rw [h] at inv <;> simpa [SlotOk, CfgFrom, World.init] using inv
-
-/-- opening copies the defaults and overlays the caller's dict; the classic-mode `on_connect` then rewrites that
-connection's own copy -/
-theorem open_then_slave (w : World) (i : Nat) (ov : Overlay) (hf : w.conns i = .fresh) :
+/-- **Opening takes a snapshot**: the defaults as they are NOW, overlaid with the dict's content as it is NOW;
+the classic-mode `on_connect` then rewrites that connection's own copy -/
+theorem open_takes_snapshot (w : World) (i : Nat) (ov : Overlay) (d : Nat) (hf : w.conns i = .fresh) :
     (step w (.open i ov)).conns i = .live (applyOverlay w.dflt ov)
+    ∧ (step w (.openWith i d)).conns i = .live (applyOverlay w.dflt (w.dicts d))
     ∧ (step (step w (.open i ov)) (.slave i)).conns i = .live (onConnectSlave (applyOverlay w.dflt ov)) := by
   simp [step, hf]
+
+/-- **… and the snapshot is frozen.** Once connection `j` holds `cfg`, then after ANY further history — edits of
+the dict it was opened with and of `DEFAULT_CONFIG` included — it holds `cfg` or `cfg` with the classic-mode update
+(its own `on_connect`), live or closed. No other configuration can ever appear in slot `j`. -/
+theorem config_frozen_after_open (w : World) (evs : List Event) (j : Nat) (cfg : Config)
+    (h : w.conns j = .live cfg) :
+    (runEvents w evs).conns j = .live cfg ∨ (runEvents w evs).conns j = .live (onConnectSlave cfg)
+    ∨ (runEvents w evs).conns j = .closed cfg ∨ (runEvents w evs).conns j = .closed (onConnectSlave cfg) :=
+  runEvents_frozen evs w j cfg (Or.inl h)
+
+/-- connections opened AFTER an edit see the edited values (the other half of "snapshot") -/
+theorem later_open_sees_edit (w : World) (d i : Nat) (e : Overlay) (hf : w.conns i = .fresh) :
+    (runEvents w [.editDict d e, .openWith i d]).conns i = .live (applyOverlay w.dflt (mergeOverlay (w.dicts d) e))
+    ∧ (runEvents w [.setDefault e, .open i {}]).conns i = .live (applyOverlay (applyOverlay w.dflt e) {}) := by
+  simp [runEvents, step, hf]
 
 /-- **What classic mode grants itself** (generated from the live `SlaveService.on_connect`): afterwards every name
 of every hook-less object may be read, written and deleted, as itself (no twin substitution), on THAT connection. -/
@@ -346,7 +366,8 @@ theorem call_sites_are_modelled :
 
 /-- observed on the live code at generation time: `_check_attr` reads exactly the nine modelled keys;
 `Connection.__init__` gives each connection its own dict = defaults overlaid with the caller's dict and modifies
-neither `DEFAULT_CONFIG` nor the caller's dict (this is `step (.open i ov)`); `SlaveService.on_connect` leaves
+neither `DEFAULT_CONFIG` nor the caller's dict, and later edits of either do not show through the connection's
+`_config` (this is `step (.open i ov)` / `.openWith` taking a snapshot); `SlaveService.on_connect` leaves
 `DEFAULT_CONFIG` deep-equal; `Service` has no read hook; the generated safe list is complete -/
 theorem config_handling_is_modelled :
     Gen.Policy.checkAttrReads =
@@ -356,6 +377,7 @@ theorem config_handling_is_modelled :
     ∧ Gen.Policy.initEqualsDefaults = true
     ∧ Gen.Policy.initOverlaysArg = true
     ∧ Gen.Policy.initLeavesInputsAlone = true
+    ∧ Gen.Policy.initSnapshotFrozen = true
     ∧ Gen.Policy.slaveLeavesDefaultsAlone = true
     ∧ Gen.Policy.serviceHasGetHook = false
     ∧ Gen.Policy.cfgSafeAttrsCp.length = Gen.Policy.cfgSafeAttrsCount := by
@@ -394,16 +416,25 @@ example : (run (onConnectSlave defaultConfig) (restrictedView 0 1 [foo] none (fu
       = .error .attributeError
     ∧ (run defaultConfig (restrictedView 0 1 [foo] none (fun _ => false)) (.text foo) .set).out = .ok (.hooked foo) := by
   decide
-/-- a history with three differently configured connections, a classic-mode connect and a close: connection 2 is
-exactly what its own opening made it, and the defaults are untouched -/
+/-- a history with three differently configured connections, a classic-mode connect, a close, and the application
+editing — after the fact — both the dict object connection 2 was opened with (then reusing it for connection 4) and
+`DEFAULT_CONFIG`: connection 2 is exactly what its own opening made it, connection 4 sees the edits -/
+def strict : Overlay := { allowPublic := some false, exposedPrefix := some [120] }
 def history : List Event :=
-  [.open 1 { allowPublic := some true }, .open 2 { allowSet := some true, exposedPrefix := some [120] },
-   .open 3 {}, .slave 3, .access 1, .close 1, .access 2, .slave 1]
-example : (runEvents World.init history).conns 2
-      = .live (applyOverlay defaultConfig { allowSet := some true, exposedPrefix := some [120] })
+  [.open 1 { allowPublic := some true }, .editDict 7 strict, .openWith 2 7,
+   .open 3 {}, .slave 3, .access 1, .close 1,
+   .editDict 7 { allowPublic := some true, allowSet := some true }, .setDefault { allowAll := some true },
+   .openWith 4 7, .access 2, .slave 1]
+example : (runEvents World.init history).conns 2 = .live (applyOverlay defaultConfig strict)
     ∧ (runEvents World.init history).conns 3 = .live (onConnectSlave defaultConfig)
     ∧ (runEvents World.init history).conns 1 = .closed (applyOverlay defaultConfig { allowPublic := some true })
-    ∧ (runEvents World.init history).dflt = defaultConfig := by decide
+    ∧ (runEvents World.init history).conns 4
+        = .live (applyOverlay (applyOverlay defaultConfig { allowAll := some true })
+                  { allowPublic := some true, allowSet := some true, exposedPrefix := some [120] })
+    ∧ (runEvents World.init history).dflt = applyOverlay defaultConfig { allowAll := some true } := by decide
+/-- the hypotheses of `others_cannot_change` / `config_frozen_after_open` are met by non-trivial histories -/
+example : ∀ e ∈ [Event.editDict 7 { allowAll := some true }, .setDefault { allowAll := some true }, .open 9 {}, .slave 9],
+    e.conn ≠ some 2 := by decide
 /-- "café" as UTF-8 bytes is the text name -/
 example : utf8Dec false [99, 97, 102, 0xC3, 0xA9] = some [99, 97, 102, 233]
     ∧ utf8Dec false [0xED, 0xA0, 0x80] = none ∧ utf8Dec false [0xFF] = none := by decide
